@@ -421,11 +421,15 @@ def theory_axioms(terms, extra_trig=False):
             elif n == "sinh":
                 ax.append(z3.Implies(a >= 0, x >= a))
                 ax.append(z3.Implies(a <= 0, x <= a))
+                # sinh(10) = 11013.2.. >= 5000 and d/da sinh = cosh >= cosh(10) >= 500 beyond: sinh(a) >= 500 a
+                ax.append(z3.Implies(a >= 10, x >= 500 * a))
             elif n == "cosh":
                 ax.append(x >= 1)
             elif n == "log":
                 ax.append(z3.Implies(a >= 1, x >= 0))
                 ax.append(z3.Implies(z3.And(a > 0, a <= 1), x <= 0))
+                ax.append(z3.Implies(a > 1, x > 0))
+                ax.append(z3.Implies(z3.And(a > 0, a < 1), x < 0))
             elif n == "arctan":
                 ax.append(z3.And(2 * x > -PI, 2 * x < PI))
                 has_pi = True
@@ -633,6 +637,27 @@ def sum_apps(terms):
     return out
 
 
+def _index_free_factors(body, bv):
+    """factors f of the product/quotient `body` that do not mention the bound variable bv
+    (body == f * rest); numerals excluded"""
+    out = []
+    work = [(body, False)]
+    while work:
+        t, inverted = work.pop(0)
+        if z3.is_app(t) and t.decl().kind() == z3.Z3_OP_MUL and not inverted:
+            work = [(c, False) for c in t.children()] + work
+            continue
+        if z3.is_app(t) and t.decl().kind() == z3.Z3_OP_DIV and not inverted:
+            work = [(t.arg(0), False), (t.arg(1), True)] + work
+            continue
+        if z3.is_rational_value(t) or z3.is_int_value(t) or not z3.is_real(t):
+            continue
+        if any(c.eq(bv) for c in free_consts(t)):
+            continue
+        out.append(z3.RealVal(1) / t if inverted else t)
+    return out
+
+
 def sum_axioms(terms, rounds=1, done=None, signs=True, pairs=True):
     """Instances of the lemma schemas (DESIGN §2.7) for the Sum applications in `terms`:
       empty          hi <= lo -> S == 0
@@ -659,7 +684,9 @@ def sum_axioms(terms, rounds=1, done=None, signs=True, pairs=True):
         b = d.body_at(a, sk)
         rng = z3.And(lo <= sk, sk < hi)
         sign_ax += [z3.Implies(z3.Implies(rng, b >= 0), a >= 0), z3.Implies(z3.Implies(rng, b <= 0), a <= 0),
-                    z3.Implies(z3.Implies(rng, b == 0), a == 0)]
+                    z3.Implies(z3.Implies(rng, b == 0), a == 0),
+                    # sum_pos: non-empty range and positive terms
+                    z3.Implies(z3.And(lo < hi, z3.Implies(rng, b > 0)), a > 0)]
     # applications that appear only through sign instances: give them their own empty/sign axioms once,
     # but never pair them (marked in `done` with a 'nopair' tag)
     inner = [x for x in sum_apps(sign_ax) if x.get_id() not in done and ("empty", x.get_id()) not in done]
@@ -695,6 +722,20 @@ def sum_axioms(terms, rounds=1, done=None, signs=True, pairs=True):
                        z3.Implies(z3.And(a.arg(0) <= sk, sk < a.arg(1)),
                                   da.body_at(a, sk) == dc.body_at(c, sk))),
                 a == c))
+            # sum_lin (scalar factor): body_x(k) == f * body_y(k) on the range  ==>  x == f * y, for the factors f of
+            # body_x that do not depend on the summation index
+            for x_, y_ in ((a, c), (c, a)):
+                dx, dy = SumDef.registry[x_.decl().get_id()], SumDef.registry[y_.decl().get_id()]
+                factors = _index_free_factors(dx.body, dx.bv)
+                amap = list(zip(dx.params, x_.children()[2:]))
+                for f_ in factors[:3]:
+                    fa = z3.substitute(f_, *amap) if amap else f_
+                    sk2 = Fresh.int("sk")
+                    ax.append(z3.Implies(
+                        z3.And(x_.arg(0) == y_.arg(0), x_.arg(1) == y_.arg(1),
+                               z3.Implies(z3.And(x_.arg(0) <= sk2, sk2 < x_.arg(1)),
+                                          dx.body_at(x_, sk2) == fa * dy.body_at(y_, sk2))),
+                        x_ == fa * y_))
     return ax + sign_ax
 
 
@@ -787,8 +828,17 @@ def _abstract_nonlinear(fs):
             ch = [rb(c) for c in t.children()]
             kind = t.decl().kind()
             if kind == z3.Z3_OP_MUL:
-                nums = [c for c in ch if isnum(c)]
-                rest = [c for c in ch if not isnum(c)]
+                # flatten nested products and order the factors canonically (hash-consed ids): a*(b*c),
+                # (c*a)*b, ... all become the same application
+                flat, work = [], list(t.children())
+                while work:
+                    c = work.pop(0)
+                    if z3.is_app(c) and c.decl().kind() == z3.Z3_OP_MUL:
+                        work = list(c.children()) + work
+                    else:
+                        flat.append(rb(c))
+                nums = [c for c in flat if isnum(c)]
+                rest = sorted((c for c in flat if not isnum(c)), key=lambda c: c.get_id())
                 if len(rest) >= 2:
                     rest = [to_real(c) for c in rest]
                     acc = rest[0]
@@ -813,6 +863,14 @@ def _abstract_nonlinear(fs):
     out = [rb(f) for f in fs]
     x, y = z3.Reals("x!c y!c")
     out.append(z3.ForAll([x, y], MULF(x, y) == MULF(y, x), patterns=[MULF(x, y)]))
+    # numerals of the problem: quotients are cross-multiplied against them (t = a/b, b > 0: t < c <=> a < c*b,
+    # which is linear in the abstracted terms because c is a numeral)
+    numerals = {}
+    for t in ground_subterms(out).values():
+        if z3.is_rational_value(t) or z3.is_int_value(t):
+            q = Fraction(t.numerator_as_long(), t.denominator_as_long()) if z3.is_rational_value(t) else Fraction(t.as_long())
+            numerals[q] = to_real(to_z3(q))
+    numerals = [numerals[q] for q in sorted(numerals, key=lambda q: (abs(q), q))[:16]]
     # sign rules of * and / as ground instances (valid for the real operations)
     for _ in range(2):
         g = ground_subterms(out)
@@ -835,6 +893,9 @@ def _abstract_nonlinear(fs):
                           z3.Implies(z3.And(a >= 0, b < 0), t <= 0), z3.Implies(z3.And(a <= 0, b < 0), t >= 0),
                           z3.Implies(z3.And(a > 0, b > 0), t > 0), z3.Implies(a == 0, t == 0),
                           z3.Implies(b == 1, t == a)]
+                for c in numerals:
+                    extra += [z3.Implies(b > 0, z3.And((t < c) == (a < c * b), (t <= c) == (a <= c * b))),
+                              z3.Implies(b < 0, z3.And((t < c) == (a > c * b), (t <= c) == (a >= c * b)))]
             else:
                 continue
             _signed.add(t.get_id())
